@@ -252,7 +252,7 @@ def _spend_job(n):
 BOUNDED = ([("rt-contracts", fuzz_job(CONTRACTS))]
            + [("musig-sessions-n%d" % n, _musig_job(n, 2 if n <= 3 else 1, 12 if n <= 3 else 6)) for n in (2, 3, 4, 5)]
            + [("kofn-spends-n%d" % n, _spend_job(n)) for n in (1, 2, 3, 4, 5)])
-JOB_TIMEOUT = {"quick": 240, "thorough": 1500}
+JOB_TIMEOUT = {"quick": 240, "thorough": 3600}    # the 2-signer sessions with merkle root need ~8 min alone, 3-4x inside the pool
 CATEGORY = "other"
 TECHNIQUE = ("contract-based deductive verification: pyvc VCs from the real MuSigTapScript source (key aggregation, nonce aggregation, partial signing, "
              "get_signature incl. its self-verification) in the discrete-log theory; the signing identity is decided by zn_ring polynomial normal forms mod n, "
